@@ -104,12 +104,38 @@ def model_request(name, ref, old, new_data, f=0):
 
 
 # ----------------------------------------------------------------- generator ---
-def raw_values(fmt, recs):
-    """record values -> raw values as a tool obtains them: parse a file of the format"""
+CDATA_LAYOUTS = [("", ""), ("", ""), ("\n    ", "\n  "), (" ", " "), ("\n", "")]
+
+
+def android_cdata(text, items, layout):
+    """the Android file [text] rendered from [items] with the strings of [layout]
+    (key -> (white-space before, after)) written as CDATA sections:
+    <string name="k">{before}<![CDATA[value]]>{after}</string>.  The value of such a string
+    is the content of the CDATA section, as it stands."""
+    vals = {it[1]: it[2] for it in items if it[0] == "ent"}
+    for k, (lead, trail) in layout.items():
+        v = vals.get(k)
+        if not v or "]]>" in v:
+            continue
+        text = text.replace(render_entity("android", k, v),
+                            '<string name="%s">%s<![CDATA[%s]]>%s</string>' % (k, lead, v, trail), 1)
+    return text
+
+
+def cdata_layout(rng, items, p):
+    return {it[1]: rng.choice(CDATA_LAYOUTS) for it in items
+            if it[0] == "ent" and it[2] and rng.random() < p}
+
+
+def raw_values(fmt, recs, cdata=None):
+    """record values -> raw values as a tool obtains them: parse a file of the format
+    ([cdata]: Android strings written as CDATA sections in that file)"""
     items = [("ent", k, v, None) for k, v in recs]
     if fmt == "ini":
         items = [("sec", "Strings")] + items
     text = render(fmt, items)
+    if fmt == "android" and cdata:
+        text = android_cdata(text, items, cdata)
     out = {}
     for e in walk_bytes(FNAME[fmt], text.encode("utf-8")):
         if ckind(e) == K_ENTITY:
@@ -208,6 +234,12 @@ def gen_triple(rng, fmt=None):
             old_items.insert(rng.randint(lo, hi), ("junk", JUNK_LINE[fmt]))
             njunk = 1
     old_text = render(fmt, old_items)
+    cdata_ref = {}
+    if fmt == "android" and rng.random() < 0.4:
+        # strings whose content is a CDATA section, plain or surrounded by white-space: in the
+        # reference (Entity.wrap writes the new value into the section) and in the old file
+        cdata_ref = cdata_layout(rng, ref_items, 0.5)
+        old_text = android_cdata(old_text, old_items, cdata_layout(rng, old_items, 0.4))
     if rng.random() < 0.08:
         old_text, old_items = "", []
     # new data
@@ -222,7 +254,9 @@ def gen_triple(rng, fmt=None):
         else:
             new_recs.append((k, render_value(fmt, rng, "N")))
     known = [(k, v) for k, v in new_recs if not k.startswith("unknown")]
-    raws = raw_values(fmt, known) if known else {}
+    # (Android: some of the new values are read from CDATA strings of the parsed file)
+    raws = raw_values(fmt, known, cdata_layout(rng, [("ent", k, v, None) for k, v in known], 0.4)
+                      if fmt == "android" and rng.random() < 0.5 else None) if known else {}
     new_data = {}
     for k in pool:
         if k in new_none:
@@ -230,8 +264,15 @@ def gen_triple(rng, fmt=None):
         for kk, v in new_recs:
             if kk == k:
                 new_data[k] = raws.get(k, "whatever " + v)
+    for k, v in new_recs:
+        # (reported, not generated: the EMPTY new value for a CDATA section surrounded by
+        # white-space — minidom drops the empty section on re-parse, the white-space around it
+        # becomes the value)
+        if v == "" and k in cdata_ref:
+            cdata_ref[k] = ("", "")
     return {"fmt": fmt, "ref_items": ref_items, "old_items": old_items,
-            "ref": render(fmt, ref_items), "old": old_text, "new_data": new_data,
+            "ref": android_cdata(render(fmt, ref_items), ref_items, cdata_ref) if cdata_ref
+            else render(fmt, ref_items), "old": old_text, "new_data": new_data,
             "new_recs": dict(new_recs), "obsolete": obsolete, "junk": njunk}
 
 
